@@ -493,7 +493,7 @@ def check_c15(out, tier):
                 cfg["cap"] = max(sizes) + rnd.choice([0, 0, 1])
         else:
             cfg["mode"] = "shapemap"
-            cfg["items"] = pipeline.shape_map_items(rnd, T, classes)
+            cfg["items"] = pipeline.shape_map_items(rnd, T, classes, wildcards=True)
             cfg["nsDict"] = gen.NSDICT
         base = gen.case("c15g%d" % i, T, **cfg)
         payloads.append({"id": base["id"] + ".local", "case": base, "kind": "local"})
@@ -624,10 +624,14 @@ def check_c19(out, tier):
             cfg["targets"] = rnd.sample(classes, rnd.randint(1, len(classes)))
         elif classes and rnd.random() < .5:
             cfg["mode"] = "shapemap"
-            cfg["items"] = pipeline.shape_map_items(rnd, T, classes)
+            cfg["items"] = pipeline.shape_map_items(rnd, T, classes, wildcards=True)
             cfg["nsDict"] = gen.NSDICT
         c = gen.case("c19e%d" % i, T, **cfg)
         c["endpoint"] = True
+        cases.append(c)
+    for i in range(6 * k):        # selectors that answer a node several times, local and on the endpoint
+        c = gen.tied_focus_case(rnd, "c19t%d" % i)
+        c["endpoint"] = i % 3 != 0
         cases.append(c)
     seeds = list(range(6)) if tier == "quick" else list(range(32))
     work = tempfile.mkdtemp(prefix="shexer-verif-c19-")
